@@ -52,7 +52,7 @@ def run(ctx):
     common.run_exact(ctx, exact)
     common.run_exact(ctx, common.long_tails(ctx, exact))
     common.run_differential(ctx, mutants, common.proj_value)
-    # all truncations (named by the property's quantifier): never a value; asking for more input vs rejecting as the model does
+    # all truncations (named by the property's quantifier): never a value
     trunc, per_fam = [], {}
     for c in exact:
         if c.value is not None and c.rem == 0:
@@ -95,7 +95,7 @@ def run(ctx):
     common.run_cg(ctx, ('sct ', 'sct_list ', 'ext_c_signed_certificate_timestamp '), common.proj_trunc)
     common.lean_failure_violation(ctx, ok)
     return ctx.finish(LEVEL,
-        rule='SCT entries and lists of 0..n SCTs from the independent RFC 6962 encoder (all versions, timestamps over the u64 range, extension/signature lengths at boundaries; exact), suffixes, nested length corruptions and truncations (differential), every (hash, signature) pair inside an SCT (exact), every strict prefix of short encodings (class: never a value; Incomplete vs rejection as the model), entry-overrun (exact: the preceding SCTs only) and list-overrun (class: no value); the captured list of tests/; distinct = (family, outcome shape)',
+        rule='SCT entries and lists of 0..n SCTs from the independent RFC 6962 encoder (all versions, timestamps over the u64 range, extension/signature lengths at boundaries; exact), suffixes, nested length corruptions and truncations (differential), every (hash, signature) pair inside an SCT (exact), every strict prefix of short encodings (class: never a value), entry-overrun (exact: the preceding SCTs only) and list-overrun (class: no value); the captured list of tests/; distinct = (family, outcome shape)',
         checker_cmd='cd /verif/lean && lake build TlsModel.Props.C14', assumptions=[])
 
 
